@@ -23,7 +23,7 @@ var goodKinds = []string{"spend", "spend", "vote", "vote", "veto", "veto", "regi
 var badKinds = []string{"bad-premature-veto", "bad-immature-coinbase", "bad-double-spend", "bad-missing"}
 
 // HeaderMutations are the single-rule block mutations chainkit can build.
-var HeaderMutations = []string{"height-plus1", "height-minus1", "version", "timestamp-early", "timestamp-equal-parent", "merkle",
+var HeaderMutations = []string{"height-plus1", "height-minus1", "version", "timestamp-early", "timestamp-equal-parent", "timestamp-future", "merkle",
 	"wrong-proposer", "outsider-signature", "bad-signature", "no-signature",
 	"cb-amount-plus1", "cb-amount-minus1", "cb-extra-recipient", "cb-missing-recipient", "cb-vote-output", "tx-unbalanced"}
 
